@@ -49,6 +49,7 @@ def handleHStep (l : Line) : List Verdict :=
       bnext := ← l.int? "bnext", bcooldown := ← l.bool? "bcooldown", cleared := ← l.bool? "cleared", leak := ← l.str? "leak", nocache := ← l.bool? "nocache", post }
     let newrt ← l.str? "newrt"
     let dup := (l.bool? "dup").getD false
+    let afterRefusal := (l.bool? "afterrefusal").getD false
     let hop ← l.bool? "hop"
     let sidmatch ← l.bool? "sidmatch"
     let cfg : Cfg := { mode := (match x.mode with | 0 => .standalone | 1 => .ssoServer | _ => .ssoProxy), forwardAuth := x.cfwd, inactivity := x.inact,
@@ -88,6 +89,11 @@ def handleHStep (l : Line) : List Verdict :=
       | _ => ["unknown op"]
     let _ := b2n
     pure (verdictsOf diffs (Ww.Spec.Sys.check x ++
+      -- (a refusal met on a MANUAL refresh far from expiry leaves the still-valid token usable until a refresh is due - that is how the code reads the
+      --  sentence and it is not claimed as a finding; what must not happen is that a DUE refresh is skipped after a refusal and the old token served)
+      (if afterRefusal && x.op == "proxy" && x.upauth.startsWith "w:" && x.contacted == 0 && Ww.Spec.Sys.autoRefreshAvailable x && pre.st == 1 && pre.rtok != "" &&
+          decide (x.now > Ww.Spec.Sys.earliest pre + 2 * Ww.Spec.Sys.second) && decide (x.now > Ww.Spec.Sys.cooldownEnd pre + 2 * Ww.Spec.Sys.second) then
+         [("C11.rejected_refresh_still_auth", "the provider had refused this session's refresh token and a refresh was due again, yet the request was forwarded with the old token without the provider being asked")] else []) ++
       (if dup then [("C07.token_presented_twice.history", "a refresh-token value the provider had already redeemed was presented again")] else [])))
   r.getD [Verdict.bad "hstep"]
 
